@@ -49,7 +49,33 @@ func (w *World) StreamSession(name string, maxMsgs int64, ackFrac, nackFrac floa
 	idleCheck := true
 	process := func() {
 		hi := w.now()
-		for _, b := range fs.Take() {
+		batches := fs.Take()
+		incoming := 0
+		for _, b := range batches {
+			incoming += len(b.Msgs)
+		}
+		full := !idleCheck || len(pending)+incoming >= capacity
+		// dead-letter-eligible due deliveries are retired by the stream's own
+		// fetches, possibly before later fetches of this same session: settle
+		// them first
+		for _, d := range s.Dels {
+			if d.State != Out || !d.dlEligible() || d.Wild {
+				continue
+			}
+			switch {
+			case s.dlVoid():
+				if d.whyOpt(may, lo, hi, true) == "" {
+					d.Wild = true
+					w.stat("wild_deadletter_topic_deleted", 1)
+				}
+			case !full && d.why(must, lo, hi) == "":
+				w.forward(d, Iv{lo, hi})
+			case d.whyOpt(may, lo, hi, true) == "":
+				d.Wild = true
+				w.stat("wild_stream_deadletter", 1)
+			}
+		}
+		for _, b := range batches {
 			room := capacity - len(pending)
 			if room > 100 {
 				room = 100
@@ -74,24 +100,6 @@ func (w *World) StreamSession(name string, maxMsgs int64, ackFrac, nackFrac floa
 				}
 			}
 			w.stat("must_checks", 1)
-		}
-		// dead-letter-eligible due deliveries are retired by the stream's fetches
-		if idleCheck && len(pending) < capacity {
-			for _, d := range s.Dels {
-				if d.State == Out && d.dlEligible() && !d.Wild {
-					if d.why(must, lo, hi) == "" {
-						w.forward(d, Iv{lo, hi})
-					} else if d.why(may, lo, hi) == "" {
-						d.Wild = true
-					}
-				}
-			}
-		} else {
-			for _, d := range s.Dels {
-				if d.State == Out && d.dlEligible() && d.why(may, lo, hi) == "" {
-					d.Wild = true
-				}
-			}
 		}
 	}
 	process()
@@ -136,6 +144,11 @@ func (w *World) StreamSession(name string, maxMsgs int64, ackFrac, nackFrac floa
 				d.Lease = Iv{alo, ahi}
 				d.LeaseWhy = "stream-nack"
 				w.stat("stream_nacks", 1)
+				if d.dlEligible() {
+					// whether the stream's next fetch already retired it is internal
+					d.Wild = true
+					w.stat("wild_stream_nack_deadletter", 1)
+				}
 			}
 			// NOTE: whether a nacked message frees capacity is C11's business; the
 			// history properties only need the lease effect, so we stop tracking
